@@ -160,6 +160,10 @@ func c20StatementSites(r *Rng, n int) []c20Site {
 		{fmt.Sprintf("%s.fld = %s.fld", a, a), m(20, 1), "self-assign-member"},
 		{fmt.Sprintf("%s, %s = %s, %s", a, b, a, b), m(20, 1), "self-assign-pairwise"},
 		{fmt.Sprintf("%s, %s = %s, %s", a, b, b, a), m(), "near-swap"},
+		{fmt.Sprintf("%s, %s = %s, %s", a, b, cc, b), m(), "near-self-assign-last-pair-only"},
+		{fmt.Sprintf("%s, %s = %s, %s", a, b, a, cc), m(), "near-self-assign-first-pair-only"},
+		{fmt.Sprintf("%s, %s, %s = 1, %s, %s", a, b, cc, b, cc), m(), "near-self-assign-all-but-first-pair"},
+		{fmt.Sprintf("%s.fld, %s.other = %s.other, %s.other", a, a, a, a), m(), "near-self-assign-member-last-pair-only"},
 		{fmt.Sprintf("%s = %s", a, b), m(), "near-assign-other"},
 		{fmt.Sprintf("%s.fld = %s.other", a, a), m(), "near-assign-other-member"},
 		{fmt.Sprintf("%s = (%s)", a, a), m(20, expDC), "dc-self-assign-parens"},
@@ -366,6 +370,10 @@ func c20GeneratedSite(r *Rng, n int, a, b, cc string, ctxs []func(e string, n in
 	default: // 20, pairwise
 		t := c20GenChain(r, vars, 1, true)
 		t2, kind := c20Mutate(r, t, vars)
+		if r.Bool() {
+			// the differing pair first, an identical pair last
+			return c20Site{Text: fmt.Sprintf("%s, %s.tmp = %s, %s.tmp", c20Join(t), cc, c20Join(t2), cc), Expect: none, Label: "generated-near-self-assign-pairwise-identical-last|differs-in-" + kind}
+		}
 		return c20Site{Text: fmt.Sprintf("%s, %s.tmp = %s, %s.tmp2", c20Join(t), cc, c20Join(t2), cc), Expect: none, Label: "generated-near-self-assign-pairwise|differs-in-" + kind}
 	}
 }
